@@ -25,19 +25,20 @@ func c02(env *core.Env, large bool) {
 	mem := newMem(immutable)
 	m := reg.NewModel(immutable)
 	cfg := reg.GenConfig{
-		Repos:        pickSome(c, "repos", repoNames, 1, 3),
-		BadRepos:     badRepoNames,
-		Tags:         pickSome(c, "tags", tagNames, 1, 3),
-		MaxBlob:      200,
-		Weights:      reg.DefaultWeights(),
-		BadPush:      true,
-		ContentFault: true,
-		EmptyBlobMT:  true,
-		Motifs:       true,
-		AltAlgo:      true,
-		Stops:        true,
-		Uploads:      true,
-		SmallReads:   true,
+		Repos:           pickSome(c, "repos", repoNames, 1, 3),
+		BadRepos:        badRepoNames,
+		Tags:            pickSome(c, "tags", tagNames, 1, 3),
+		MaxBlob:         200,
+		Weights:         reg.DefaultWeights(),
+		BadPush:         true,
+		MalformedDigest: true,
+		ContentFault:    true,
+		EmptyBlobMT:     true,
+		Motifs:          true,
+		AltAlgo:         true,
+		Stops:           true,
+		Uploads:         true,
+		SmallReads:      true,
 	}
 	n := c.Range("nops", 10, 60)
 	if env.Tier == "thorough" {
